@@ -4,6 +4,7 @@ model grows; see DESIGN.md.)
 -/
 import Complgen.Model.Pipeline
 import Complgen.Proofs.NoCrash
+import Complgen.Proofs.PipelineMin
 namespace Complgen.Props.C06
 open Complgen Complgen.Check
 
@@ -24,5 +25,14 @@ of the run, a panic of the library's validation can only be that one. -/
 theorem validate_crash_only_stack (g : Grammar) (sh : Shell) (s : String) (h : validate g sh = .crash s) :
     s = "check_subword_spaces: unbounded recursion through cyclic definitions" :=
   Check.validate_crash_only_stack g sh s h
+
+/-- **The minimiser never exhausts its budget**: the pipeline model has two calls of the minimiser (main
+automaton, every within-word automaton) whose refinement loop is modelled with fuel; neither can
+run out, for any grammar, shell and schedule (`Proofs/HopcroftTerm.lean` through
+`Proofs/PipelineMin.lean`: what the subset construction builds is well-formed, and on well-formed
+input |states|² rounds suffice). -/
+theorem minimiser_budget_suffices (σ : Schedule) (g : Grammar) (sh : Shell) :
+    Pipeline.compile σ g sh ≠ .crash "do_minimize: out of fuel" :=
+  Pipeline.compile_never_minimize_fuel σ g sh
 
 end Complgen.Props.C06
